@@ -139,6 +139,49 @@ Theorem C04_chunking_independent :
 Proof. exact chunking_independent. Qed.
 Print Assumptions C04_chunking_independent.
 
+(* ---- known finding (open): empty-selection-schema-of-earlier-registration ----
+   The statement is planned against whatever table is bound to `metrics`.  An
+   empty chunk selection re-registers an EmptyTable with the schema of the
+   PREVIOUS binding (the default metrics schema on a fresh node), so a statement
+   that type-checks against the ingested data can fail instead of returning the
+   empty answer.  The full-strength statement "pipeline outcome = full-scan
+   outcome for every node state" is therefore false of the code: *)
+Theorem C04_refuted_empty_selection_schema :
+  exists sel,
+    select_chunks (local_get (local_run refut_h)) no_gate 0 refut_fs = Done sel /\
+    known_empty_selection_schema qnode_fresh KInt64 sel = true /\
+    snd (run_query refut_typechecks refut_exec refut_content qnode_fresh KInt64 sel) = Failed 1%N /\
+    full_scan refut_typechecks refut_exec refut_content KInt64 (live_paths refut_h) = Done 0%nat.
+Proof. exact refuted_empty_selection_schema. Qed.
+Print Assumptions C04_refuted_empty_selection_schema.
+
+(* C04_modulo_known: for every node state, data schema, statement typing and
+   both backends, outside the known class the outcome of the pipeline (answer
+   or type-check error) is the outcome of the full scan. *)
+Theorem C04_modulo_known :
+  forall (I : interp) (content : path -> list row) (prune : list cpred -> path -> bool)
+         (answer : Type) (engine : list pred -> list row -> answer) (post : list row -> answer)
+         (h : list cop) (typechecks : tskind -> bool) (st : qnode) (data : tskind)
+         (now : Z) (fs : list pred),
+  hist_ok h ->
+  (* C06 *) (forall p m r, In (p, m) (spec_run h) -> In r (content p) ->
+               m_min m <= r_ts r <= m_max m /\ in_i64 (r_ts r) = true) ->
+  (* C12 *) (forall cs p r, In r (content p) ->
+               (forall c, In c cs -> csem I c r = Some true) -> prune cs p = true) ->
+  (* DataFusion *) (forall fs rows, engine fs rows = post (filter (sat_all I fs) rows)) ->
+  (* DataFusion *) (forall rows rows', Permutation rows rows' -> post rows = post rows') ->
+  finite_window I fs ->
+  (exists sel, select_chunks (s3_get (s3_run h)) prune now fs = Done sel /\
+     (known_empty_selection_schema st data sel = false ->
+      snd (run_query typechecks (engine fs) content st data sel)
+      = full_scan typechecks (engine fs) content data (live_paths h))) /\
+  (exists sel, select_chunks (local_get (local_run h)) no_gate now fs = Done sel /\
+     (known_empty_selection_schema st data sel = false ->
+      snd (run_query typechecks (engine fs) content st data sel)
+      = full_scan typechecks (engine fs) content data (live_paths h))).
+Proof. exact run_query_eq_full_scan_modulo_known. Qed.
+Print Assumptions C04_modulo_known.
+
 (* Adaptive indexing only counts usage: same answer as the plain execution. *)
 Theorem C04_adaptive_indexing_observation_only :
   forall (A : Type) (exec : list row -> A) (v i : N) (st : idx_counters) (rows : list row),
